@@ -167,7 +167,7 @@ def run(ctx, C07):
     reg = U.fixed_registry()
     names = [x["name"] for x in reg["types"]]
     cands = U.all_types(names, 2)
-    for wi in range(ctx.n(5, 24)):
+    for wi in range(ctx.n(5, 16)):
         if ctx.time_left() < (8 if quick else 40):
             ctx.notes.append("tree: stopped at world %d (time)" % wi)
             break
